@@ -1,6 +1,6 @@
 #!/bin/sh
 # usage: tools/try_mutant.sh <patch.diff> <Cxx> [Cyy ...]   -- apply to /repo, run quick checks, restore
-P="$1"; shift
+P="$(realpath "$1")"; shift
 cd /repo || exit 2
 if ! git diff --quiet; then echo "/repo is dirty"; exit 2; fi
 git apply "$P" || { echo "patch does not apply"; exit 2; }
